@@ -138,6 +138,18 @@ impl Em<'_> {
         k
     }
 
+    /// An anchor next to a construct boundary, left out one time in four (returns 0 then): without
+    /// it structural instructions become adjacent (`end end`, `end else`, opener directly followed
+    /// by a branch ...), which lowerings that look at neighbouring instructions are sensitive to. The
+    /// construct is then judged through the interpreter's virtual control-flow events only.
+    fn mark_opt(&mut self) -> i32 {
+        if self.rich && self.rng.chance(1, 4) {
+            0
+        } else {
+            self.mark()
+        }
+    }
+
     fn expr32(&mut self, depth: u32) {
         let r = self.rng.below(if depth >= 2 { 5 } else { 9 });
         match r {
@@ -429,7 +441,7 @@ impl Em<'_> {
                 let b_open = self.out.len() as u32;
                 self.out.push(Ins::Block(BT::Empty));
                 self.labels.push(Lbl { is_loop: false, arity: 0, func_results: false });
-                let b_entry = self.mark();
+                let b_entry = self.mark_opt();
                 let clause = if self.rng.chance(1, 2) { (Some(0), 0) } else { (None, 0) };
                 self.out.push(Ins::TryTable(BT::Empty, vec![clause]));
                 // the try_table label is never a branch target (arity sentinel), it only counts as a depth
@@ -472,11 +484,11 @@ impl Em<'_> {
                 self.out.push(Ins::End);
                 self.labels.pop();
                 self.mark();
-                let b_fall = self.mark();
+                let b_fall = self.mark_opt();
                 let b_end = self.out.len() as u32;
                 self.out.push(Ins::End);
                 self.labels.pop();
-                let b_after = self.mark();
+                let b_after = self.mark_opt();
                 self.info.constructs.push(Construct {
                     opener: b_open,
                     kind: CK::Block,
@@ -495,16 +507,16 @@ impl Em<'_> {
                 let opener = self.out.len() as u32;
                 self.out.push(Ins::Block(bt));
                 self.labels.push(Lbl { is_loop: false, arity: ar, func_results: false });
-                let m_entry = self.mark();
+                let m_entry = self.mark_opt();
                 self.body(nest + 1);
                 for _ in 0..ar {
                     self.expr32(1);
                 }
-                let m_fall = self.mark();
+                let m_fall = self.mark_opt();
                 let end = self.out.len() as u32;
                 self.out.push(Ins::End);
                 self.labels.pop();
-                let m_after = self.mark();
+                let m_after = self.mark_opt();
                 for _ in 0..ar {
                     self.out.push(Ins::Drop);
                 }
@@ -530,11 +542,11 @@ impl Em<'_> {
                 let b_open = self.out.len() as u32;
                 self.out.push(Ins::Block(BT::Empty));
                 self.labels.push(Lbl { is_loop: false, arity: 0, func_results: false });
-                let b_entry = self.mark();
+                let b_entry = self.mark_opt();
                 let l_open = self.out.len() as u32;
                 self.out.push(Ins::Loop(BT::Empty));
                 self.labels.push(Lbl { is_loop: true, arity: 0, func_results: false });
-                let l_entry = self.mark();
+                let l_entry = self.mark_opt();
                 self.body(nest + 2);
                 // back edge
                 let m_br = self.mark();
@@ -552,11 +564,11 @@ impl Em<'_> {
                     targets_loop: true,
                     conditional: true,
                 });
-                let l_fall = self.mark();
+                let l_fall = self.mark_opt();
                 let l_end = self.out.len() as u32;
                 self.out.push(Ins::End);
                 self.labels.pop();
-                let l_after = self.mark();
+                let l_after = self.mark_opt();
                 self.info.constructs.push(Construct {
                     opener: l_open,
                     kind: CK::Loop,
@@ -568,11 +580,11 @@ impl Em<'_> {
                     m_else_fall: None,
                     m_after: l_after,
                 });
-                let b_fall = self.mark();
+                let b_fall = self.mark_opt();
                 let b_end = self.out.len() as u32;
                 self.out.push(Ins::End);
                 self.labels.pop();
-                let b_after = self.mark();
+                let b_after = self.mark_opt();
                 self.info.constructs.push(Construct {
                     opener: b_open,
                     kind: CK::Block,
@@ -593,27 +605,27 @@ impl Em<'_> {
                 let opener = self.out.len() as u32;
                 self.out.push(Ins::If(bt));
                 self.labels.push(Lbl { is_loop: false, arity: ar, func_results: false });
-                let m_entry = self.mark();
+                let m_entry = self.mark_opt();
                 self.body(nest + 1);
                 for _ in 0..ar {
                     self.expr32(1);
                 }
-                let m_fall = self.mark();
+                let m_fall = self.mark_opt();
                 let (mut else_idx, mut m_else_entry, mut m_else_fall) = (None, None, None);
                 if with_else {
                     else_idx = Some(self.out.len() as u32);
                     self.out.push(Ins::Else);
-                    m_else_entry = Some(self.mark());
+                    m_else_entry = Some(self.mark_opt());
                     self.body(nest + 1);
                     for _ in 0..ar {
                         self.expr32(1);
                     }
-                    m_else_fall = Some(self.mark());
+                    m_else_fall = Some(self.mark_opt());
                 }
                 let end = self.out.len() as u32;
                 self.out.push(Ins::End);
                 self.labels.pop();
-                let m_after = self.mark();
+                let m_after = self.mark_opt();
                 for _ in 0..ar {
                     self.out.push(Ins::Drop);
                 }
@@ -721,7 +733,7 @@ impl Em<'_> {
                 let opener = self.out.len() as u32;
                 self.out.push(Ins::If(BT::Empty));
                 self.labels.push(Lbl { is_loop: false, arity: 0, func_results: false });
-                let m_entry = self.mark();
+                let m_entry = self.mark_opt();
                 let mut pre = self.mark();
                 // sometimes the explicit exit directly follows a conditional branch (no anchor in
                 // between): instruction adjacency matters to lowerings that look at neighbours
@@ -758,11 +770,11 @@ impl Em<'_> {
                     }
                     self.info.unreachables.push((uidx, pre));
                 }
-                let m_fall = self.mark();
+                let m_fall = self.mark_opt();
                 let end = self.out.len() as u32;
                 self.out.push(Ins::End);
                 self.labels.pop();
-                let m_after = self.mark();
+                let m_after = self.mark_opt();
                 self.info.constructs.push(Construct {
                     opener,
                     kind: CK::If,
